@@ -12,12 +12,17 @@ package main
 // duplicate hashes in one call, duplicate signers, a hash re-used in another round) is accepted.
 
 import (
+	"errors"
 	"fmt"
+	"sort"
 	"strings"
+	"sync"
+	"time"
 
 	"github.com/MixinNetwork/mixin/common"
 	"github.com/MixinNetwork/mixin/crypto"
 	"github.com/MixinNetwork/mixin/storage"
+	"github.com/dgraph-io/badger/v4"
 )
 
 const c26DayLen = uint64(86400000000000)
@@ -61,6 +66,114 @@ type c26Oracle struct {
 	lead map[c26Key]int
 	sign map[c26Key]int
 	off  bool
+	recs map[[2]int]map[uint64]c26Sn // (node, round) -> timestamp -> record the harness wrote
+}
+
+// c26Sn is one snapshot work as the harness knows it.
+type c26Sn struct {
+	id      int
+	ts      uint64
+	signers []int
+}
+
+// credit applies one accepted, non-stale submission to the round-agnostic ledger.
+func (or *c26Oracle) credit(node int, sns []c26Sn, credit bool) (fresh, credited bool) {
+	var fr []c26Sn
+	for _, s := range sns {
+		if !or.seen[[2]int{node, s.id}] {
+			fr = append(fr, s)
+		}
+		or.seen[[2]int{node, s.id}] = true
+	}
+	if !credit || len(fr) == 0 || len(fr[0].signers) == 0 {
+		return len(fr) > 0, false
+	}
+	for _, s := range fr {
+		d := int(s.ts / c26DayLen)
+		or.lead[c26Key{node, d}]++
+		did := map[int]bool{}
+		for _, x := range s.signers {
+			if x != node && !did[x] {
+				or.sign[c26Key{x, d}]++
+			}
+			did[x] = true
+		}
+	}
+	return true, true
+}
+
+func c26Works(sns []c26Sn) []*common.SnapshotWork {
+	var works []*common.SnapshotWork
+	for _, s := range sns {
+		sw := &common.SnapshotWork{Hash: c26Snap(s.id), Timestamp: s.ts}
+		for _, x := range s.signers {
+			sw.Signers = append(sw.Signers, c26Node(x))
+		}
+		works = append(works, sw)
+	}
+	return works
+}
+
+// c26ParseSubmit parses `node round credit n (id ts k s1 … sk)*` and returns the tokens used.
+func c26ParseSubmit(t []string) (node, round int, credit bool, sns []c26Sn) {
+	node, round, credit = atoi(t[0]), atoi(t[1]), atoi(t[2]) == 1
+	n := atoi(t[3])
+	p := 4
+	for i := 0; i < n; i++ {
+		s := c26Sn{id: atoi(t[p])}
+		fmt.Sscan(t[p+1], &s.ts)
+		k := atoi(t[p+2])
+		p += 3
+		for j := 0; j < k; j++ {
+			s.signers = append(s.signers, atoi(t[p]))
+			p++
+		}
+		sns = append(sns, s)
+	}
+	if p != len(t) {
+		panic("harness: malformed submit line")
+	}
+	return
+}
+
+var c26SnapIDs = map[crypto.Hash]int{}
+
+func c26SnapID(h crypto.Hash) int {
+	if len(c26SnapIDs) == 0 {
+		for i := 0; i < 4000; i++ {
+			c26SnapIDs[c26Snap(i)] = i
+		}
+	}
+	if id, ok := c26SnapIDs[h]; ok {
+		return id
+	}
+	return -1
+}
+
+var c26NodeIDs = map[crypto.Hash]int{}
+
+func c26NodeID(h crypto.Hash) int {
+	if len(c26NodeIDs) == 0 {
+		for i := 0; i < 64; i++ {
+			c26NodeIDs[c26Node(i)] = i
+		}
+	}
+	if id, ok := c26NodeIDs[h]; ok {
+		return id
+	}
+	return -1
+}
+
+// c26WriteRetry is the retry loop of kernel/mint.go:writeRoundWork.
+func c26WriteRetry(store *storage.BadgerStore, node crypto.Hash, round uint64, works []*common.SnapshotWork, credit bool) (err error, conflicts int) {
+	for {
+		err = store.WriteRoundWork(node, round, works, credit)
+		if err == nil || !errors.Is(err, badger.ErrConflict) {
+			return err, conflicts
+		}
+		conflicts++
+		time.Sleep(100 * time.Microsecond)
+	}
 }
 
 func execWork(st *State, line string) Result {
@@ -69,7 +182,7 @@ func execWork(st *State, line string) Result {
 	w := c26Get(st)
 	or, _ := st.V["or"].(*c26Oracle)
 	if or == nil {
-		or = &c26Oracle{seen: map[[2]int]bool{}, lead: map[c26Key]int{}, sign: map[c26Key]int{}}
+		or = &c26Oracle{seen: map[[2]int]bool{}, lead: map[c26Key]int{}, sign: map[c26Key]int{}, recs: map[[2]int]map[uint64]c26Sn{}}
 		st.V["or"] = or
 	}
 	fail := func(key, desc string) {
@@ -92,35 +205,10 @@ func execWork(st *State, line string) Result {
 			w.store = c23Open(w.dir)
 			return "ok"
 		case "submit", "submitx":
-			node, round, credit, n := atoi(t[1]), atoi(t[2]), atoi(t[3]) == 1, atoi(t[4])
-			type sn struct {
-				id      int
-				ts      uint64
-				signers []int
-			}
-			var sns []sn
-			var works []*common.SnapshotWork
-			p := 5
-			for i := 0; i < n; i++ {
-				s := sn{id: atoi(t[p])}
-				fmt.Sscan(t[p+1], &s.ts)
-				k := atoi(t[p+2])
-				p += 3
-				sw := &common.SnapshotWork{Hash: c26Snap(s.id), Timestamp: s.ts}
-				for j := 0; j < k; j++ {
-					s.signers = append(s.signers, atoi(t[p]))
-					sw.Signers = append(sw.Signers, c26Node(atoi(t[p])))
-					p++
-				}
-				sns = append(sns, s)
-				works = append(works, sw)
-			}
-			if p != len(t) {
-				panic("harness: malformed submit line")
-			}
+			node, round, credit, sns := c26ParseSubmit(t[1:])
 			off, err := w.store.ReadWorkOffset(c26Node(node))
 			must(err)
-			must(w.store.WriteRoundWork(c26Node(node), uint64(round), works, credit))
+			must(w.store.WriteRoundWork(c26Node(node), uint64(round), c26Works(sns), credit))
 			switch {
 			case uint64(round) < off:
 				res.Tags = append(res.Tags, "submit:stale")
@@ -133,32 +221,176 @@ func execWork(st *State, line string) Result {
 				or.off = true
 			}
 			if uint64(round) >= off {
-				var fresh []sn
-				for _, s := range sns {
-					if !or.seen[[2]int{node, s.id}] {
-						fresh = append(fresh, s)
-					}
-					or.seen[[2]int{node, s.id}] = true
-				}
-				if len(fresh) > 0 {
+				fresh, credited := or.credit(node, sns, credit)
+				if fresh {
 					res.Tags = append(res.Tags, "submit:fresh")
 				}
-				if credit && len(fresh) > 0 && len(fresh[0].signers) > 0 {
+				if credited {
 					res.Tags = append(res.Tags, "submit:credited")
-					for _, s := range fresh {
-						d := int(s.ts / c26DayLen)
-						or.lead[c26Key{node, d}]++
-						did := map[int]bool{}
-						for _, x := range s.signers {
-							if x != node && !did[x] {
-								or.sign[c26Key{x, d}]++
-							}
-							did[x] = true
-						}
-					}
 				}
 			}
 			return "ok"
+		case "rec":
+			node, round, id := atoi(t[1]), atoi(t[2]), atoi(t[3])
+			sn := c26Sn{id: id}
+			fmt.Sscan(t[4], &sn.ts)
+			k := atoi(t[5])
+			var signers []crypto.Hash
+			for j := 0; j < k; j++ {
+				sn.signers = append(sn.signers, atoi(t[6+j]))
+				signers = append(signers, c26Node(atoi(t[6+j])))
+			}
+			must(w.store.VerifC26WriteSnapshotWork(c26Node(node), uint64(round), sn.ts, c26Snap(id), signers))
+			key := [2]int{node, round}
+			if or.recs[key] == nil {
+				or.recs[key] = map[uint64]c26Sn{}
+			}
+			or.recs[key][sn.ts] = sn
+			return "ok"
+		case "readr", "subr":
+			node, round := atoi(t[1]), atoi(t[2])
+			off, err := w.store.ReadWorkOffset(c26Node(node))
+			must(err)
+			works, err := w.store.ReadSnapshotWorksForNodeRound(c26Node(node), uint64(round))
+			must(err)
+			// what the harness wrote for this round, in timestamp order
+			var want []c26Sn
+			for _, sn := range or.recs[[2]int{node, round}] {
+				want = append(want, sn)
+			}
+			sort.Slice(want, func(i, j int) bool { return want[i].ts < want[j].ts })
+			show := func(id int, ts uint64, signers []int) string {
+				return fmt.Sprintf("%d:%d:%s", id, ts, joinInts(signers))
+			}
+			var got, exp []string
+			for _, sw := range works {
+				var sg []int
+				for _, h := range sw.Signers {
+					sg = append(sg, c26NodeID(h))
+				}
+				got = append(got, show(c26SnapID(sw.Hash), sw.Timestamp, sg))
+			}
+			for _, sn := range want {
+				exp = append(exp, show(sn.id, sn.ts, sn.signers))
+			}
+			hetero := false
+			for _, sn := range want {
+				hetero = hetero || joinInts(sn.signers) != joinInts(want[0].signers)
+			}
+			if hetero {
+				res.Tags = append(res.Tags, t[0]+":heterogeneous-signers")
+			}
+			if t[0] == "readr" {
+				// records of rounds the checkpoint has left are deleted by WriteRoundWork: only
+				// rounds at or above the checkpoint are compared with what was written
+				if uint64(round) >= off && strings.Join(got, " ") != strings.Join(exp, " ") {
+					fail("reader-mismatch", fmt.Sprintf("works of node %d round %d read back as %v, written %v", node, round, got, exp))
+				}
+				if len(got) == 0 {
+					return "ok 0"
+				}
+				return fmt.Sprintf("ok %d %s", len(got), strings.Join(got, " "))
+			}
+			credit := atoi(t[3]) == 1
+			must(w.store.WriteRoundWork(c26Node(node), uint64(round), works, credit))
+			if uint64(round) >= off {
+				// the ledger is fed with what was WRITTEN for the round, not with what the reader returned
+				fresh, credited := or.credit(node, want, credit)
+				if fresh {
+					res.Tags = append(res.Tags, "subr:fresh")
+				}
+				if credited {
+					res.Tags = append(res.Tags, "subr:credited")
+				}
+			} else {
+				res.Tags = append(res.Tags, "subr:stale")
+			}
+			return "ok"
+		case "conc":
+			// goroutines separated by "/", their consecutive submissions by "|"; step i of all
+			// goroutines is released together; each call uses the kernel's ErrConflict retry loop
+			type sub struct {
+				node, round int
+				credit      bool
+				sns         []c26Sn
+				res         string
+				stale       bool
+			}
+			var groups [][]*sub
+			for _, g := range strings.Split(strings.Join(t[1:], " "), " / ") {
+				var subs []*sub
+				for _, sl := range strings.Split(g, " | ") {
+					node, round, credit, sns := c26ParseSubmit(strings.Fields(sl))
+					subs = append(subs, &sub{node: node, round: round, credit: credit, sns: sns})
+				}
+				groups = append(groups, subs)
+			}
+			steps := 0
+			for _, g := range groups {
+				if len(g) > steps {
+					steps = len(g)
+				}
+			}
+			var mu sync.Mutex
+			conflicts := 0
+			for i := 0; i < steps; i++ {
+				var wg sync.WaitGroup
+				start := make(chan struct{})
+				for _, g := range groups {
+					if i >= len(g) {
+						continue
+					}
+					wg.Add(1)
+					go func(sb *sub) {
+						defer wg.Done()
+						off, err := w.store.ReadWorkOffset(c26Node(sb.node))
+						if err != nil {
+							sb.res = "harness: " + err.Error()
+							return
+						}
+						sb.stale = uint64(sb.round) < off
+						works := c26Works(sb.sns)
+						<-start
+						out, _, msg := Catch(func() string {
+							err, n := c26WriteRetry(w.store, c26Node(sb.node), uint64(sb.round), works, sb.credit)
+							mu.Lock()
+							conflicts += n
+							mu.Unlock()
+							if err != nil {
+								return "harness: " + err.Error()
+							}
+							return "o"
+						})
+						if out == "panic" {
+							out = "p"
+							if strings.HasPrefix(msg, "harness:") {
+								out = msg
+							}
+						}
+						sb.res = out
+					}(g[i])
+				}
+				close(start)
+				wg.Wait()
+			}
+			var outs []string
+			for _, g := range groups {
+				o := ""
+				for _, sb := range g {
+					if strings.HasPrefix(sb.res, "harness:") {
+						panic(sb.res)
+					}
+					o += sb.res
+					if sb.res == "o" && !sb.stale {
+						or.credit(sb.node, sb.sns, sb.credit)
+					}
+				}
+				outs = append(outs, o)
+			}
+			if conflicts > 0 {
+				res.Tags = append(res.Tags, "conc:conflict-retried")
+			}
+			return "ok " + strings.Join(outs, "/")
 		case "works":
 			node, d := atoi(t[1]), atoi(t[2])
 			m, err := w.store.ListNodeWorks([]crypto.Hash{c26Node(node)}, uint32(d))
@@ -185,14 +417,7 @@ func execWork(st *State, line string) Result {
 			must(err)
 			var ids []int
 			for _, h := range hashes {
-				id := -1
-				for i := 0; i < 400; i++ {
-					if c26Snap(i) == h {
-						id = i
-						break
-					}
-				}
-				ids = append(ids, id)
+				ids = append(ids, c26SnapID(h))
 			}
 			return fmt.Sprintf("ok %d %s", round, joinInts(ids))
 		}
@@ -205,7 +430,7 @@ func execWork(st *State, line string) Result {
 		res.Tags = append(res.Tags, t[0]+":panic")
 	}
 	res.Out = out
-	res.Nontrivial = t[0] == "works" || t[0] == "ckpt"
+	res.Nontrivial = t[0] == "works" || t[0] == "ckpt" || t[0] == "readr" || t[0] == "conc"
 	return res
 }
 
@@ -230,7 +455,157 @@ func c26Line(op string, node, round int, credit bool, sns []c26PlanSnap) string 
 	return strings.Join(parts, " ")
 }
 
+// genWorkReadBack: the AggregateMintWork path. Work records are written with the snapshot-work
+// writer, read back with ReadSnapshotWorksForNodeRound and what was read is submitted; the
+// snapshots of a round are signed by different quorums.
+func genWorkReadBack(r *Rand) []string {
+	lines := []string{"reset"}
+	nNodes := r.Range(1, 3)
+	day := r.Range(1, 20000)
+	nextSnap := 1
+	type chain struct {
+		round int
+		ts    uint64
+	}
+	chains := map[int]*chain{}
+	quorum := func(node int) []int {
+		sg := []int{node}
+		for x := 1; x <= 6; x++ {
+			if x != node && r.Chance(1, 2) {
+				sg = append(sg, x)
+			}
+		}
+		for a := len(sg) - 1; a > 0; a-- {
+			b := r.Intn(a + 1)
+			sg[a], sg[b] = sg[b], sg[a]
+		}
+		return sg
+	}
+	rec := func(node int, ch *chain) {
+		ch.ts += uint64(r.Range(1, 1000))
+		sg := quorum(node)
+		parts := []string{"rec", fmt.Sprint(node), fmt.Sprint(ch.round), fmt.Sprint(nextSnap), fmt.Sprint(ch.ts), fmt.Sprint(len(sg))}
+		for _, x := range sg {
+			parts = append(parts, fmt.Sprint(x))
+		}
+		nextSnap++
+		lines = append(lines, strings.Join(parts, " "))
+	}
+	nops := r.Range(6, 30)
+	for j := 0; j < nops; j++ {
+		node := r.Range(1, nNodes)
+		ch := chains[node]
+		if ch == nil {
+			ch = &chain{round: r.Intn(2), ts: uint64(day) * c26DayLen}
+			chains[node] = ch
+			for k := r.Range(1, 4); k > 0; k-- {
+				rec(node, ch)
+			}
+		}
+		credit := 1
+		if r.Chance(1, 10) {
+			credit = 0
+		}
+		switch r.Intn(10) {
+		case 0, 1: // the round grows
+			for k := r.Range(1, 3); k > 0; k-- {
+				rec(node, ch)
+			}
+		case 2, 3, 4: // aggregate the round (again)
+			lines = append(lines, fmt.Sprintf("subr %d %d %d", node, ch.round, credit))
+		case 5:
+			lines = append(lines, fmt.Sprintf("readr %d %d", node, ch.round))
+		case 6, 7: // aggregate, then the next round starts
+			lines = append(lines, fmt.Sprintf("subr %d %d %d", node, ch.round, credit))
+			ch.round++
+			for k := r.Range(1, 5); k > 0; k-- {
+				rec(node, ch)
+			}
+			lines = append(lines, fmt.Sprintf("subr %d %d %d", node, ch.round, credit))
+		case 8: // a round the checkpoint has left
+			if ch.round > 0 {
+				old := r.Range(0, ch.round-1)
+				lines = append(lines, fmt.Sprintf("readr %d %d", node, old), fmt.Sprintf("subr %d %d %d", node, old, credit))
+			}
+		default:
+			lines = append(lines, fmt.Sprintf("works %d %d", r.Range(1, 6), day))
+		}
+	}
+	for node := 1; node <= 6; node++ {
+		lines = append(lines, fmt.Sprintf("works %d %d", node, day))
+	}
+	for node := 1; node <= nNodes; node++ {
+		lines = append(lines, fmt.Sprintf("ckpt %d", node))
+	}
+	return lines
+}
+
+// genWorkConcurrent: one goroutine per chain (distinct proposers), overlapping signer sets, one
+// day; every goroutine submits its rounds as monotone sets with repeats, in lock step.
+func genWorkConcurrent(r *Rand) []string {
+	lines := []string{"reset"}
+	g := r.Range(2, 8)
+	steps := r.Range(2, 6)
+	day := r.Range(1, 20000)
+	nextSnap := 1
+	shared := []int{21, 22, 23}
+	var groups []string
+	for p := 1; p <= g; p++ {
+		round := r.Intn(2)
+		var plan []c26PlanSnap
+		newRound := func() {
+			plan = nil
+			for k := r.Range(1, 4); k > 0; k-- {
+				sg := []int{p}
+				for _, x := range shared {
+					if r.Chance(4, 5) {
+						sg = append(sg, x)
+					}
+				}
+				if q := r.Range(1, g); q != p && r.Chance(1, 2) {
+					sg = append(sg, q)
+				}
+				plan = append(plan, c26PlanSnap{nextSnap, uint64(day)*c26DayLen + uint64(nextSnap), sg})
+				nextSnap++
+			}
+		}
+		newRound()
+		sent := 0
+		var subs []string
+		for i := 0; i < steps; i++ {
+			switch {
+			case sent < len(plan) && r.Chance(2, 3):
+				sent += r.Range(1, len(plan)-sent)
+			case r.Chance(1, 2):
+				round++
+				newRound()
+				sent = r.Range(1, len(plan))
+			}
+			if sent == 0 {
+				sent = 1
+			}
+			l := c26Line("x", p, round, !r.Chance(1, 12), plan[:sent])
+			subs = append(subs, strings.TrimPrefix(l, "x "))
+		}
+		groups = append(groups, strings.Join(subs, " | "))
+	}
+	lines = append(lines, "conc "+strings.Join(groups, " / "))
+	for _, x := range shared {
+		lines = append(lines, fmt.Sprintf("works %d %d", x, day))
+	}
+	for p := 1; p <= g; p++ {
+		lines = append(lines, fmt.Sprintf("works %d %d", p, day), fmt.Sprintf("ckpt %d", p))
+	}
+	return lines
+}
+
 func genWork(r *Rand, i int, tier string) []string {
+	switch i % 8 {
+	case 1, 5:
+		return genWorkReadBack(r)
+	case 3:
+		return genWorkConcurrent(r)
+	}
 	lines := []string{"reset"}
 	nNodes := r.Range(1, 4)
 	nextSnap := 1
